@@ -326,3 +326,44 @@ _run_l12 = run
 def run(ctx, rep, tier):
     _run_l12(ctx, rep, tier)
     _gone_target_is_not_terminating(ctx, rep, tier)
+
+
+# ---------------------------------------------------------------------------------------------------------------- C10.o
+def _yield_rests_in_its_own_state(ctx, rep, tier):
+    """C10.o (seed C10-13): the machine rests, behind a yield / finish code, in a state of the interrupt's own - never in the state the program goes on
+    in. The emitter answers for the *target* of the interrupting transition (DONE at once for an accepting target, which also skips the early advance;
+    the optimiser merges a step into whatever non-proxy state follows), so an interrupt that leads straight into the continuation reports *start on the
+    consumed byte and the wrong code. Necessary: the interrupting transition's target is a DFProxyState created unconditionally, given its outgoing step
+    unconditionally."""
+    from ..srcmodel import walk_no_nested, strip_doc
+    model = ctx.model
+    q = "InterruptableActionNode.convert"
+    fn = model.func(q)
+    rep.rule("C10.o", "a yield / finish code leads into a proxy state of its own, created and wired unconditionally (the machine never rests in the continuation's state behind the interrupt)")
+    body = strip_doc(fn.body)
+    stores = [st for st in walk_no_nested(fn) if isinstance(st, ast.Assign) and len(st.targets) == 1 and isinstance(st.targets[0], ast.Subscript)
+              and ast.unparse(st.targets[0].slice) == "DFTransition.Else"]
+    ok, why = False, f"{len(stores)} stores of an Else step in {q}"
+    if len(stores) == 1 and isinstance(stores[0].value, ast.Name) and any(stores[0] is b for b in body):
+        holder, tgt = ast.unparse(stores[0].targets[0].value), stores[0].value.id
+        binds = [st for st in walk_no_nested(fn) if isinstance(st, ast.Assign) and any(isinstance(t, ast.Name) and t.id in (tgt, holder) for t in st.targets)]
+        top = [st for st in binds if any(st is b for b in body)]
+        fresh = all(isinstance(st.value, ast.Call) and ast.unparse(st.value.func) == "DFProxyState" and not st.value.args for st in binds)
+        wired = [b for b in body if isinstance(b, ast.Expr) and isinstance(b.value, ast.Call) and ast.unparse(b.value.func) == f"{tgt}.transition"]
+        attach = [b for b in body if isinstance(b, ast.Expr) and "attach(self.important_action)" in ast.unparse(b) and ast.unparse(b).startswith(f"{holder}[DFTransition.Else]")]
+        ok = len(binds) == 2 and len(top) == 2 and fresh and len(wired) == 1 and len(attach) == 1
+        why = (f"the interrupting step of {q} leads to `{tgt}`, bound by {[ast.unparse(b)[:40] for b in binds]} (unconditional: {len(top)}/{len(binds)}), wired unconditionally: {len(wired)}: "
+               "behind a yield with nothing deferred the machine rests in the continuation's own state - at -O3 the yield is merged onto the consuming transition, an accepting target is "
+               "answered DONE at once without the early advance, and *start is reported on the consumed byte")
+    rep.check(ok, "C10.o", q, "interrupt step -> fresh DFProxyState (unconditional) -> deferred-actions step", why)
+
+
+_run_l13 = run
+
+
+def run(ctx, rep, tier):
+    _run_l13(ctx, rep, tier)
+    _yield_rests_in_its_own_state(ctx, rep, tier)
+    from .shared import delegate
+    delegate(ctx, rep, tier, "C06", ("C06.n",), "C10.p", "the state member can hold every number a template stores, the 'failed' marker included: FAIL is final only if the marker survives the store")
+    delegate(ctx, rep, tier, "C02", ("C02.g",), "C10.q", "actions nested in other actions are emitted in the context of the transition that carries them: OK is only returned with the whole chunk consumed")
